@@ -14,11 +14,14 @@
    finds it), C09_levels_that_exist_are_reused_everywhere (when p resolves nothing is created: the node is
    replaced in place), C09_missing_location_only_additions and C09_failure_alters_nothing (the old document embeds in
    the new one: `grows`), C09_created_container_single_entry.
+   C09_cascade_from_a_match: the same when the data source is a Match (set_(p, v, match, cascade=True)): `cset` is applied
+   to the subtree the Match holds and the result put back at the position of that subtree; on any failure the old
+   document embeds in the new one (C09_cascade_from_a_match_failure).
    (get(p, doc, default=v, store_default=True) reaches the same set_match; that glue is compared by the
    correspondence.) *)
 From Coq Require Import List ZArith String Bool PArith.
 From TP Require Import Json PyPrim Machine Api Mutate SpecSet.
-From TP.proofs Require Import RefineBase MutateProofs CsetLemmas CascadeRefine.
+From TP.proofs Require Import RefineBase MutateProofs CsetLemmas CascadeRefine CascadeFrom.
 Import ListNotations.
 
 Theorem C09_created_kind : forall k z i,
@@ -118,3 +121,24 @@ Example C09_example :
 Proof.
   split; [apply freshb_fresh; reflexivity | split; reflexivity].
 Qed.
+
+Theorem C09_cascade_from_a_match :
+  forall (B H : positive) (depth fuel : nat) (m : @tm json) bp doc (p : list (vertex hp)) x tr nl r doc' nl' es,
+    wf m -> lookup doc bp = Some (tdata m) ->
+    kipath p = true -> (List.length p < fuel)%nat -> fresh doc nl (List.length p) ->
+    set_match B H depth fuel (SrcMatch m) doc p x true tr nl = (r, doc', nl', es) ->
+    match r with
+    | Ok m' => exists t', cset (tdata m) p x nl = (true, t') /\ doc' = put_at doc bp t' /\ tdata m' = x
+    | Exn e => (exists t', cset (tdata m) p x nl = (false, t') /\ doc' = put_at doc bp t' /\ e = ESet) \/
+               (budget_exn e = true /\ grows doc doc')
+    end.
+Proof. exact set_match_cset_from. Qed.
+Print Assumptions C09_cascade_from_a_match.
+
+Theorem C09_cascade_from_a_match_failure :
+  forall (B H : positive) (depth fuel : nat) (m : @tm json) bp doc (p : list (vertex hp)) x tr nl e doc' nl' es,
+    wf m -> lookup doc bp = Some (tdata m) ->
+    kipath p = true -> (List.length p < fuel)%nat -> fresh doc nl (List.length p) ->
+    set_match B H depth fuel (SrcMatch m) doc p x true tr nl = (Exn e, doc', nl', es) -> grows doc doc'.
+Proof. exact set_match_from_failure_grows. Qed.
+Print Assumptions C09_cascade_from_a_match_failure.
